@@ -254,8 +254,8 @@ def check(case):
     saved = Logger._destinations
     try:
         for call_index, call in enumerate(case["calls"]):
-            args = list(call["args"])
-            kwargs = dict(call["kwargs"])
+            args = [_materialise(v) for v in call["args"]]
+            kwargs = dict((k, _materialise(v)) for k, v in call["kwargs"].items())
             if case.get("inner_decorator") == 2 and call_index % 2 == 0 and "retries" not in inner_names:
                 kwargs["retries"] = 2 + call_index
             kwargs = dict((names[k % len(names)] if isinstance(k, int) and names else str(k), v) for k, v in kwargs.items()) if False else kwargs
@@ -368,6 +368,8 @@ def classify(case, info):
             labels.append("inner-wrapper-has-its-own-keyword")
         if case["inner_decorator"] == 3:
             labels.append("log_call-on-log_call")
+    if '"$obj"' in canon(case["calls"]):
+        labels.append("argument-is-an-instance-of-a-container-subclass")
     if info.get("invalid_include_args"):
         return True, labels + ["invalid-include_args"]
     labels.append("kinds=%d" % info["kinds"])
@@ -388,8 +390,45 @@ def classify(case, info):
     return bool(nontrivial), labels
 
 
+class PairList(list):
+    """A list subclass with a constructor of its own."""
+
+    def __init__(self, first, second):
+        list.__init__(self, [first, second])
+
+
+def _materialise(v):
+    """Argument values that are instances of container subclasses (by tag; cases stay plain data)."""
+    import collections
+
+    if isinstance(v, dict) and "$obj" in v:
+        kind = v["$obj"]
+        if kind == "defaultdict":
+            d = collections.defaultdict(int)
+            d["a"] += 2
+            return d
+        if kind == "pairlist":
+            return PairList(1, 2)
+        if kind == "counter":
+            return collections.Counter("aab")
+        if kind == "ordereddict":
+            return collections.OrderedDict([("b", 1), ("a", 2)])
+        if kind == "bytearray":
+            return bytearray(b"ab")
+        if kind == "frozenset":
+            return frozenset([1, 2])
+        raise ValueError(kind)
+    return v
+
+
 def values():
-    return st.one_of(st.integers(-3, 3), st.sampled_from([None, True, "s", "", 1.5]), st.lists(st.integers(0, 2), max_size=2), st.just({"k": 1}))
+    return st.one_of(
+        st.integers(-3, 3),
+        st.sampled_from([None, True, "s", "", 1.5]),
+        st.lists(st.integers(0, 2), max_size=2),
+        st.just({"k": 1}),
+        st.sampled_from(["defaultdict", "pairlist", "counter", "ordereddict", "bytearray", "frozenset"]).map(lambda k: {"$obj": k}),
+    )
 
 
 def strategy():
@@ -474,6 +513,114 @@ def valid_call_strategy():
     )
 
 
+# ------------------------------------------------ calls made by several threads
+
+
+def check_threads(case):
+    """Two or three threads call one decorated function (their calls include its very first ones) under schedules of
+    eliot/_action.py: every call logs exactly its own arguments and returns its own result."""
+    import threading
+    from .. import sched
+    from ..core import HarnessError
+
+    saved = Logger._destinations
+    fresh = Destinations()
+    Logger._destinations = fresh
+    msgs = []
+    lock = threading.Lock()
+
+    def dest(m):
+        with lock:
+            msgs.append(dict(m))
+
+    fresh.add(dest)
+    kwargs_deco = {}
+    if case.get("include_args") is not None:
+        kwargs_deco["include_args"] = list(case["include_args"])
+
+    class Shape(object):
+        @log_call(**kwargs_deco)
+        def volume(self, width, height=2, *extra, depth=1):
+            return (width, height, extra, depth)
+
+    @log_call(**kwargs_deco)
+    def volume(width, height=2, *extra, depth=1):
+        return (width, height, extra, depth)
+
+    target = Shape().volume if case.get("method") else volume
+    results = {}
+    try:
+        def worker(tid):
+            def run():
+                for k in range(case["calls"]):
+                    tag = 100 * (tid + 1) + k
+                    results[tag] = target(tag, tag + 1, depth=tag + 2) if (tid + k) % 2 else target(tag, depth=tag + 2)
+
+            return run
+
+        s = sched.Scheduler(("eliot/_action.py",), case["plan"], opcodes=bool(case.get("opcodes")))
+        s.run([worker(i) for i in range(case["threads"])])
+    finally:
+        Logger._destinations = saved
+    for wid, e in s.errors.items():
+        if isinstance(e, HarnessError):
+            raise e
+        raise Violation("decorated-raised", "thread %d: the decorated call raised %r" % (wid, e))
+    starts = dict((m["width"], m) for m in msgs if m.get("action_status") == "started" and "width" in m)
+    for tag, r in sorted(results.items()):
+        two = r[1] == tag + 1
+        require(r == (tag, tag + 1 if two else 2, (), tag + 2), "result-altered", lambda: "call %d returned %r" % (tag, r))
+        want = {"width": tag, "height": tag + 1 if two else 2, "extra": (), "depth": tag + 2}
+        if case.get("include_args") is not None:
+            want = dict((k, v) for k, v in want.items() if k in case["include_args"])
+        if "width" not in want:
+            continue
+        got = dict((k, v) for k, v in starts.get(tag, {}).items() if k not in STRUCT)
+        require(got == want, "argument-log", lambda: "call %d logged its arguments as %r, Python binds %r" % (tag, got, want))
+    n_starts = len([m for m in msgs if m.get("action_status") == "started"])
+    require(n_starts == len(results), "message-count", lambda: "%d calls, %d start messages" % (len(results), n_starts))
+    inside = s.switched_inside(("logging_wrapper", "log_call", "<genexpr>", "<dictcomp>", "<listcomp>"))
+    return {"switches": len(s.switches), "switch_inside": len(inside)}
+
+
+def classify_threads(case, info):
+    labels = ["threads=%d" % case["threads"], "method" if case.get("method") else "function", "switches=%d" % min(info["switches"], 6), "granularity:bytecode" if case.get("opcodes") else "granularity:line"]
+    if case.get("include_args") is not None:
+        labels.append("include_args")
+    if info["switch_inside"]:
+        labels.append("preempted-inside-the-wrapper")
+    return info["switch_inside"] >= 1, labels
+
+
+def threads_strategy():
+    from .. import sched
+
+    return st.builds(
+        lambda opc, method, ia, n, calls, plan: sched.with_granularity({"method": method, "include_args": ia, "threads": n, "calls": calls, "plan": plan}, opc),
+        st.sampled_from([False, True]),
+        st.booleans(),
+        st.sampled_from([None, None, ["width", "depth"], ["width", "height", "extra"]]),
+        st.integers(2, 3),
+        st.integers(1, 2),
+        sched.plans(max_segments=8, max_steps=25, workers=3),
+    )
+
+
+def threads_enum_runner(mod, facet, tier, seed, shard, nshards, stats):
+    from ..core import enumerate_cases
+    from .. import sched
+
+    cases = []
+    for method in (False, True):
+        for ia in (None, ["width", "depth"]):
+            for plan in sched.single_preemption_plans(2, 40):
+                cases.append({"method": method, "include_args": ia, "threads": 2, "calls": 1, "plan": plan})
+            for k in range(0, 400 if tier == "thorough" else 160):
+                cases.append({"opcodes": True, "method": method, "include_args": ia, "threads": 2, "calls": 1, "plan": [[k, 0], [10**6, 1]]})
+    stats.extra["enumerated_plans"] = len(cases)
+    enumerate_cases(mod, facet, cases, shard, nshards, stats, exhaustive=True)
+
+
 def _known_f4(facet, case, violation):
     return bool(case.get("raw")) and any(p[1] == "posonly" for p in case["params"]) and violation.kind in ("accepted-unbindable-call", "body-not-run", "decorated-raised")
 
@@ -487,4 +634,6 @@ KNOWN = {"F4-positional-only": _known_f4, "F20-parameter-named-_call": _known_f2
 FACETS = [
     Facet("random-calls", strategy, check, classify, quick=1500, thorough=150000),
     Facet("valid-calls", valid_call_strategy, check, classify, quick=1500, thorough=150000),
+    Facet("threads", threads_strategy, check_threads, classify_threads, quick=150, thorough=8000),
+    Facet("threads-enum", None, check_threads, classify_threads, quick=1, thorough=1, quick_shards=8, thorough_shards=16, runner=threads_enum_runner),
 ]
